@@ -279,6 +279,17 @@ Proof.
   assert (H2 : Nat.ltb a n3 = false) by (apply Nat.ltb_ge; lia).
   rewrite H1, H2. reflexivity.
 Qed.
+(* on every allocation length that does not exceed what the current particle number demands the compression is the identity: in
+   particular on 0 (after reb_integrator_ias15_reset) and on 3*N (after a step with the current N) *)
+Lemma ias15_compress_identity : forall a n, a <= 3 * n -> ias15_compress a n = a.
+Proof. intros a n H. unfold ias15_compress. assert (E : Nat.ltb (3 * n) a = false) by (apply Nat.ltb_ge; exact H). rewrite E. reflexivity. Qed.
+Lemma ias15_compress_identity_reset_or_stepped : forall n n', ias15_compress 0 n = 0 /\ ias15_compress (3 * n) n = 3 * n /\
+  ias15_step_reallocates (ias15_compress 0 n) n' = ias15_step_reallocates 0 n'.
+Proof.
+  intros n n'. split; [apply ias15_compress_identity; lia|]. split; [apply ias15_compress_identity; lia|].
+  rewrite ias15_compress_identity by lia. reflexivity.
+Qed.
+
 (* LIMIT of the invisibility: it is about the SAME particle number.  If N grows back after the serialisation (remove a particle,
    serialise, add a particle) the compression does flip the next step's decision: unobserved run keeps the old arrays, observed one zeroes them *)
 Lemma ias15_compress_visible_when_N_grows_back : exists a n n', n < n' /\ 3 * n' <= a /\
